@@ -249,8 +249,27 @@ cls("FeaStmt", fields={"kind": STR, "script": STR, "language": STR, "include_def
         "lookup": lambda o: o.lookup,
     },
     notes="feaLib ast.ScriptStatement / LanguageStatement / LookupReferenceStatement / Comment: one class, `kind` records the constructor (assumed)")
+def _stmt_proxies(o):
+    from pyvc.rt import Proxy
+
+    return [Proxy(x, CLASSES["FeaStmt"]) for x in o.statements]
+
+
 cls("FeatureBlock", fields={"name": STR, "statements": List(Ref("FeaStmt"))},
+    # stmt_ids: in the logic the list of references itself; natively the list of id()s (survives the deep copy that the
+    # run-time interpreter takes of old(...) values)
+    derived={"stmt_ids": lambda ex, st, self: ex.read_field(st, self, "statements")},
+    views={"statements": _stmt_proxies, "stmt_ids": lambda o: [id(x) for x in o.statements]},
     notes="feaLib ast.FeatureBlock: name and the list of statements")
+
+_PRE_IDS = set()  # run time: ids of the objects that existed when the case was built (native reading of fresh())
+
+
+def _native_fresh(x):
+    from pyvc.rt import Proxy
+
+    o = object.__getattribute__(x, "_obj") if isinstance(x, Proxy) else x
+    return id(o) not in _PRE_IDS
 
 
 def _stmt_model(kind, *fields, **defaults):
@@ -316,7 +335,7 @@ def _alr_contract(name, languages_ty, props):
         modifies=["FeatureBlock.statements"],
         ensures={
             # statements are only appended
-            "appended": f"{_ST}[:{_N0}] == old(feature.statements)",
+            "appended": f"feature.stmt_ids[:{_N0}] == old(feature.stmt_ids)",
             "length": f"len({_ST}) == {base} + len({nd})",
             # script T; language dflt;
             "script": _SCRIPT.format(n=_N0),
@@ -326,7 +345,7 @@ def _alr_contract(name, languages_ty, props):
             # language X;  for every other language, inheriting the default language system's lookups
             "languages": f"all({_ST}[{base} + j].kind == 'language' and {_ST}[{base} + j].include_default and {_ST}[{base} + j].language == {nd}[j] for j in range(len({nd})))",
             # the new statements are new objects (no statement of another block is reused)
-            "fresh": f"all(fresh({_ST}[n]) for n in range({_N0}, len({_ST})))",
+            "fresh": f"all(n < {_N0} or fresh({_ST}[n]) for n in range(len({_ST})))",
         },
         canaries={"no-lookups": f"len({_ST}) == {_N0} + 2"},
         loops={
@@ -338,6 +357,9 @@ def _alr_contract(name, languages_ty, props):
                 "refs": "all(new[2 + b].kind == 'lookupref' and new[2 + b].lookup == lookups[b] for b in range(j))",
             }),
         },
+        # position-wise view of `statements == st0 + new` (proved once, then used by the postconditions)
+        hints={"for language in languages or ():": [f"all({_ST}[len(st0) + b] == new[b] for b in range(len(new)))", f"all(n < len(st0) or {_ST}[n] == new[n - len(st0)] for n in range(len({_ST})))"]},
+        globals={"fresh": _native_fresh},
         # ghost: the statements at entry, and the list of statements created so far
         ghost_vars={"st0": (List(Ref("FeaStmt")), "feature.statements"), "new": (List(Ref("FeaStmt")), "[]")},
         ghost={
@@ -350,3 +372,25 @@ def _alr_contract(name, languages_ty, props):
 
 # the default: no languagesystem statement names the tag -> languages == ["dflt"]
 _alr_contract("dflt-only", Const(["dflt"]), ["C05"])
+
+
+def _alr_cases(rng, n):
+    out = []
+    for k in range(n):
+        out.append({"existing": k % 3, "n_lookups": 1 + k % 4, "script": ["latn", "DFLT", "arab", "dev2"][k % 4], "languages": ["dflt"]})
+    return out
+
+
+def _alr_build(d):
+    from fontTools.feaLib import ast as fea
+
+    f = fea.FeatureBlock("kern")
+    pre = [fea.Comment("# x"), fea.ScriptStatement("grek")][: d["existing"]]
+    f.statements.extend(pre)
+    lookups = [fea.LookupBlock(f"kern_{i}") for i in range(d["n_lookups"])]
+    _PRE_IDS.clear()
+    _PRE_IDS.update(id(x) for x in pre + lookups + [f])
+    return {"feature": f, "lookups": lookups, "script": d["script"], "languages": list(d["languages"])}
+
+
+CONTRACTS["ufo2ft.featureWriters.ast:addLookupReferences#dflt-only"].runtime = Runtime(_alr_cases, _alr_build)
